@@ -48,6 +48,9 @@ func Catalogue() []Adapter {
 		stateSessionAdapter("ip"), stateSessionAdapter("mac"),
 		subscriberManagerAdapter("ip"), subscriberManagerAdapter("mac"),
 		memoryStoreAdapter())
+	for _, f := range extraCatalogue {
+		out = append(out, f()...)
+	}
 	return out
 }
 
@@ -76,12 +79,16 @@ func LargeCatalogue(chainLen int) []Adapter {
 		ids = append(ids, uint16(i))
 	}
 	wrap := smCfg{Start: 65520, IDs: ids, MACs: macs, NMACs: 6}
-	return []Adapter{
+	out := []Adapter{
 		vlanAdapter("s100-102.c200-207", big, 12, loads),
 		qinqAdapter("s10-11.c100-101.8subs", qp, reusable, 8),
 		sessionManagerAdapter("id", fmt.Sprintf("next65520.8slots.%d", chainLen), wrap),
 		sessionManagerAdapter("mac", fmt.Sprintf("next65520.8slots.%d", chainLen), wrap),
 	}
+	for _, f := range extraLargeCatalogue {
+		out = append(out, f(chainLen)...)
+	}
+	return out
 }
 
 func FindAdapter(name string) (Adapter, bool) {
@@ -111,6 +118,7 @@ func corpora(tier string, seed int64) []*CorpusSystem {
 }
 
 func TestExplore(t *testing.T) {
+	T = t
 	out := core.OutDir()
 	if rf := os.Getenv("VERIF_REPLAY"); rf != "" {
 		replay(t, rf, out)
